@@ -29,6 +29,8 @@ from vf.tagged import Obj, Chunks
 def _attrs(a):
     out = {}
     for k, v in (a or {}).items():
+        if k.startswith('_'):
+            continue     # '_from' / '_own': derivation from a named simple type, handled by T()
         if k == 'pa_soap11':
             # protocol-specific attribute overrides, keyed by the protocol class (not expressible in JSON)
             from spyne.protocol.soap import Soap11
@@ -130,9 +132,25 @@ def build(program):
     for en, vals in (program.get('enums') or {}).items():
         b.enums[en] = Enum(*vals, type_name=en)
 
+    # named simple types (own type name, possibly own namespace): {id: {'p': prim, 'attrs': {...}, 'type_name': .., 'ns': ..}}
+    b.simples = {}
+    for sid, sd in (program.get('simples') or {}).items():
+        kw = _attrs(sd.get('attrs'))
+        kw['type_name'] = sd.get('type_name', sid)
+        st = prims[sd['p']](**kw)
+        if sd.get('ns'):
+            st.__namespace__ = sd['ns']
+        b.simples[sid] = st
+
     def T(t):
         k = t[0]
         if k == 'p':
+            ta = t[2] if len(t) > 2 and t[2] else {}
+            if ta.get('_from'):
+                # the named simple type itself, or a further restriction of it; t[2] holds the merged facets for the
+                # reference side, '_own' the ones this derivation adds
+                own = _attrs(ta.get('_own'))
+                return b.simples[ta['_from']](**own) if own else b.simples[ta['_from']]
             cls = prims[t[1]]
             a = _attrs(t[2] if len(t) > 2 else None)
             return cls(**a) if a else cls
